@@ -1,4 +1,5 @@
 import N2k.Lemmas.HandlersRx
+import N2k.Lemmas.HandlersTP
 /-!
 # C14 — each received message reaches every matching handler exactly once
 
@@ -147,6 +148,51 @@ theorem C14_forward_options_no_influence (c : BusId → Rx.Cfg) (r : RxSide) (b 
 
 example : (1 : Nat) ≠ 4 ∧ (2 : Nat) ≠ 4 ∧ (3 : Nat) ≠ 4 := by decide
 
+/-! ## without any input: the node model of C10 as receive side (raw frames, TP payloads reassembled by the model) -/
+
+/-- END TO END over RAW FRAME HISTORIES, no annotation: every bus object is a node of the C10 model (`N2k.TP.Node`: receive
+slots, `SetN2kCANBufMsg` with `TestHandleTPMessage` — TP.CM RTS/BAM, TP.DT reassembly, CTS/EndOfMsgAck —, single frames, fast
+packets, driver queue, clock, own sending); a history interleaves client operations on the handlers with steps of these nodes
+(`TP.RxStep`: a frame handled, a frame queued, `ParseMessages`, clock change, `SendMsg`, address move) on any bus.  For EVERY
+history, any initial nodes: no fault, and event by event the calls of `RunMessageHandlers` are, in order, exactly one per
+message the node model hands to the application in that step (the entries its handler log `out` gains: single-frame,
+fast-packet and transport-protocol payload deliveries alike) and none otherwise, each with exactly that message, the callback
+once iff set and exactly the handlers the history specification says are attached to that bus and registered for PGN 0 or the
+message's PGN, all-PGN handlers first.  With `C14_tp_receiver_states` + `C14_tp_payload_genuine` (C10's receiver theorem) a
+call carrying a transport-protocol payload is made only for a complete in-order transfer of the frame history.
+Trusted here: `N2k.TP` as a model of the receive path (tied to the code by C10's correspondence runs; the C14 engine executes
+the composition with the C02 model, `C14_what_is_dispatched_partial`). -/
+theorem C14_what_is_dispatched (r0 : TpSide) (evs : List (EvG (BusId × N2k.TP.RxStep))) :
+    ∃ n calls, nodeRunG tpTrackSide (·.pgn) ⟨World.init, r0⟩ evs = some (n, calls) ∧
+      CallsAgreeG (·.pgn) calls (expectedG tpTrackSide SpecSt.init r0 evs) := by
+  obtain ⟨n, calls, hr, _, hc⟩ := nodeRunG_ok tpTrackSide (·.pgn) evs ⟨World.init, r0⟩ inv_init
+  exact ⟨n, calls, hr, hc⟩
+
+/-- the receiver invariant of C10 (`TP.NodeInv`: every open TP slot and every TP delivery made so far is explained by the
+history of transport events) holds for every bus object after every history of the composed node -/
+theorem C14_tp_receiver_states (r0 : TpSide) (h0 : TpSideInv r0) (evs : List (EvG (BusId × N2k.TP.RxStep)))
+    (n : NodeG TpSide) (calls : List (List (CallG N2k.TP.Delivery)))
+    (hr : nodeRunG tpTrackSide (·.pgn) ⟨World.init, r0⟩ evs = some (n, calls)) : TpSideInv n.r :=
+  nodeRunG_inv tpTrackSide (·.pgn) TpSideInv (fun r e h => tpTrackSide_inv r e h) evs ⟨World.init, r0⟩ n calls h0 hr
+
+/-- start states exist: nodes with free receive slots that have delivered nothing (`C10_receiver_inv_init`) -/
+example (r0 : TpSide) (hs : ∀ b, (∀ a ∈ (r0 b).1.slots, a.free = true) ∧ (r0 b).1.out = [] ∧ (r0 b).2 = []) : TpSideInv r0 := by
+  intro b
+  obtain ⟨h1, h2, h3⟩ := hs b
+  rw [h3]; exact N2k.TP.NodeInv.init _ h1 h2
+
+/-- in such a state, a transport-protocol payload that a step hands to the handlers is genuine (C10): at most 223 bytes, exactly
+`len` of them, and they are the packets — complete and in order — of ONE transfer of its source/destination pair with its PGN
+and size, at some point of the frame history handled so far.  So no annotation is needed: which TP.DT frame completes which
+message follows from the frames. -/
+theorem C14_tp_payload_genuine (st : N2k.TP.Node × List Spec.TpEv) (h : N2k.TP.NodeInv st.1 st.2) (s : N2k.TP.RxStep) :
+    ∀ d ∈ tpNew st s, d.tp = true →
+      d.len ≤ 223 ∧ d.data.length = d.len ∧
+      ∃ hst x, hst <+: (N2k.TP.rxStep st s).2 ∧ Spec.tpTrack d.src d.dst hst = some x ∧ x.pgn = d.pgn ∧ x.size = d.len ∧
+        d.len ≤ x.pk.flatten.length ∧ d.data = x.pk.flatten.take d.len := by
+  intro d hd ht
+  exact (N2k.TP.rxStep_inv st h s).good d (List.mem_of_mem_drop hd) ht
+
 /-! Non-vacuity: the theorems have no hypotheses; the examples show the model doing what the statements talk about. -/
 
 /-- handlers 0 (all PGNs), 1 and 2 (PGN 5), 3 (PGN 9) attached to bus 0 in an awkward order, 1 then moved to bus 1,
@@ -184,5 +230,29 @@ example : (nodeRun (fun _ => {}) ⟨World.init, demoRx⟩ demoEvs).map (·.2) =
     some [[], [], [], [], [], [], [], [], [], [], [],
       [⟨0, ⟨6, 129029, 1, 255, 10, [1, 2, 3, 4, 5, 6, 7, 8, 9, 10]⟩, 0, [0, 1]⟩,
        ⟨0, ⟨6, 129029, 2, 255, 10, [21, 22, 23, 24, 25, 26, 27, 28, 29, 30]⟩, 0, [0, 1]⟩]] := by decide +kernel
+
+/-- the example of `Props/C10.lean` behind two handlers: two 9-byte RTS transfers from the sources 40 and 41 to the node (address
+20) interleave and complete (41 first), a third one from 42 is broken by an out-of-sequence packet, a BAM from 43 announces too
+much; handler 0 (all PGNs) and handler 1 (PGN 126996) on bus 0, handler 2 (all PGNs) on bus 1 -/
+def demoTpNode : N2k.TP.Node :=
+  { s := { flavor := .t64, now := 1000, listenOnly := false, claimMode := true, lists := {},
+           devs := [{ source := 20, name := 1, claimTimer := N2k.Time.Sched.disabled .t64, endSource := 19 }],
+           ring := { n := 40, buf := fun _ => ⟨0, 0, []⟩, read := 0, write := 0 }, drv := { script := [], dflt := true, sent := [] } },
+    tp := fun _ => N2k.TP.TpDev.init .t64, slots := List.replicate 5 {}, onlyKnown := false, rxq := [], out := [] }
+
+open N2k.TP in
+def demoTpEvs : List (EvG (BusId × N2k.TP.RxStep)) :=
+  [.op (.new 0 0 (some 0)), .op (.new 1 126996 (some 0)), .op (.new 2 0 (some 1)),
+   .rx (0, .frame (cmIn 40 20 [16, 9, 0, 2, 0xff, 0x14, 0xf0, 0x01])), .rx (0, .frame (cmIn 41 20 [16, 9, 0, 2, 0xff, 0x16, 0xf0, 0x01])),
+   .rx (0, .frame (dtIn 40 20 [1, 1, 2, 3, 4, 5, 6, 7])), .rx (0, .frame (dtIn 41 20 [1, 11, 12, 13, 14, 15, 16, 17])),
+   .rx (0, .frame (cmIn 42 20 [16, 20, 0, 3, 0xff, 0x14, 0xf0, 0x01])), .rx (0, .time 1040),
+   .rx (0, .frame (dtIn 41 20 [2, 18, 19, 0xff, 0xff, 0xff, 0xff, 0xff])), .rx (0, .frame (dtIn 42 20 [2, 0, 0, 0, 0, 0, 0, 0])),
+   .rx (0, .frame (cmIn 43 255 [32, 0x2c, 1, 43, 0xff, 0x14, 0xf0, 0x01])), .rx (0, .frame (dtIn 43 255 [1, 9, 9, 9, 9, 9, 9, 9])),
+   .rx (0, .frame (dtIn 42 20 [1, 0, 0, 0, 0, 0, 0, 0])), .rx (0, .frame (dtIn 40 20 [2, 8, 9, 0xff, 0xff, 0xff, 0xff, 0xff]))]
+
+example : ((nodeRunG tpTrackSide (·.pgn) ⟨World.init, fun _ => (demoTpNode, [])⟩ demoTpEvs).map fun r =>
+      r.2.flatten.map fun k => (k.bus, k.msg.pgn, k.msg.src, k.msg.len, k.msg.data, k.cb, k.hs)) =
+    some [(0, 126998, 41, 9, [11, 12, 13, 14, 15, 16, 17, 18, 19], 0, [0]),
+          (0, 126996, 40, 9, [1, 2, 3, 4, 5, 6, 7, 8, 9], 0, [0, 1])] := by rfl
 
 end N2k.C14
